@@ -546,7 +546,12 @@ End Glue.
    ([r_sig]; its [s_name] is the subroutine's own name, i.e. method_call.name()) and the optional
    overriding name.  (The decorator form @router.method(name=n) creates the subroutine WITH name n and
    passes the same n: then both names coincide.) *)
-Record registration : Type := mkReg { r_sig : msig; r_override : option string }.
+Record registration : Type := mkReg {
+  r_sig : msig;                    (* the subroutine: own name, parameter types, result *)
+  r_doc : option string;           (* the description method_spec() derives from its docstring, if any *)
+  r_override : option string;      (* add_method_handler(..., overriding_name=) *)
+  r_desc : option string           (* add_method_handler(..., description=) *)
+}.
 
 (* the name the method is registered and dispatched under:
    method_signature = method_call.method_signature(overriding_name)  ->  overriding_name or self.name() *)
@@ -558,19 +563,24 @@ Definition registered_sig (r : registration) : msig :=
 (* what Router.add_method_handler records for the contract:
      meth = method_call.method_spec()
      if overriding_name is not None: meth.name = overriding_name          (since /repo 330bd50) *)
-Record method_spec : Type := mkSpec { ms_name : string; ms_args : list string; ms_returns : string }.
+Record method_spec : Type := mkSpec { ms_name : string; ms_args : list string; ms_returns : string; ms_desc : option string }.
 
-(* ABIReturnSubroutine.method_spec(): self.name(), str(type_spec) of every argument, str(type_of()) *)
-Definition own_spec (s : msig) : method_spec :=
-  mkSpec (s_name s) (map py_str (s_params s)) (ret_str py_str (s_ret s)).
+(* ABIReturnSubroutine.method_spec(): self.name(), str(type_spec) of every argument, str(type_of()), the
+   docstring's description.  Every call builds a NEW algosdk Method object. *)
+Definition own_spec (s : msig) (doc : option string) : method_spec :=
+  mkSpec (s_name s) (map py_str (s_params s)) (ret_str py_str (s_ret s)) doc.
 
-(* the recorded entry: the method spec with the name replaced by the overriding name, if one was given *)
+(* the recorded entry — one per registration, a function of THAT registration only (no state is shared
+   between two registrations, even of the same subroutine object, in the same or in another router):
+   the method spec with the name replaced by the overriding name and the description by the given one *)
 Definition spec_of (r : registration) : method_spec :=
-  let m := own_spec (r_sig r) in
-  match r_override r with
-  | Some n => mkSpec n (ms_args m) (ms_returns m)
-  | None => m
-  end.
+  let m := own_spec (r_sig r) (r_doc r) in
+  mkSpec (match r_override r with Some n => n | None => ms_name m end) (ms_args m) (ms_returns m)
+         (match r_desc r with Some d => Some d | None => ms_desc m end).
+
+(* the description a registration asks for *)
+Definition reg_desc (r : registration) : option string :=
+  match r_desc r with Some d => Some d | None => r_doc r end.
 
 (* algosdk Method.get_signature(): name(args)returns *)
 Definition spec_sig_str (m : method_spec) : string :=
